@@ -121,15 +121,21 @@ Fixpoint import_cfg (c : cfg) : res dist :=
       | FMixture =>
           ws <- get_floats p ;;
           if existsb (fun x => flt x zero) ws then Err else
-          ds' <- mapR (fun c' => match c' with Cfg f' _ _ => if scalar_fam f' then import_cfg c' else Err end) ds ;;
+          ds' <- (fix go (l : list cfg) : res (list dist) :=
+                    match l with
+                    | [] => Ok []
+                    | c' :: r =>
+                        d <- (if (match c' with Cfg f' _ _ => scalar_fam f' end) then import_cfg c' else Err) ;;
+                        ds' <- go r ;; Ok (d :: ds')
+                    end) ds ;;
           Ok (Dist FMixture (norm (map flog ws)) ds')
       | FLogT | FTrans | FIid =>
           ps <- get_floats p ;;
           if negb (length ps =? 1)%nat then Err else
           match ds with
-          | [Cfg f' p' ds'] =>
-              if scalar_fam f' then
-                d <- import_cfg (Cfg f' p' ds') ;;
+          | [c'] =>
+              if (match c' with Cfg f' _ _ => scalar_fam f' end) then
+                d <- import_cfg c' ;;
                 Ok (Dist f [match f with FIid => ftrunc (nth_f ps 0) | _ => nth_f ps 0 end] [d])
               else Err
           | _ => Err
